@@ -201,6 +201,8 @@ def compare_op(kind, impl, model, rel=1e-9, multi_names=None):
     si, pi = norm_impl_simple(impl)
     errs = SERR if kind in ("import", "roundtrip") else None
     sm, pm = norm_model_simple(model, errs)
+    if sm == "skip" and kind not in ("solve", "named", "info", "import", "truncate", "roundtrip", "distance", "eq"):
+        return None      # an operation that only the monitors judge (the model prints a placeholder)
     if kind == "solve":
         if si == "params_panic":
             return None if model["tag"] == 4 else "RegretParams::new panicked (%s) but the model accepts the tuple" % pi
